@@ -315,6 +315,13 @@ func runCanonical(w coraza.WAF, r *Req) (out *Outcome, fail *Failure) {
 // diffFired compares two fired lists: same ids in the same order and, per rule, the same
 // multiset of triples. countVars lists variables rendered with '&' whose key is not compared.
 func diffFired(got, want []Fired, ignoreKeyFor func(ruleID int, t Triple) bool) string {
+	return diffFiredSets(got, want, ignoreKeyFor, nil)
+}
+
+// diffFiredSets is diffFired where the match data of the rules selected by asSet is compared as a set: duplicates
+// are dropped after the keys that are not compared have been masked (two triples that differ only in such a key
+// are one element on both sides).
+func diffFiredSets(got, want []Fired, ignoreKeyFor func(ruleID int, t Triple) bool, asSet func(ruleID int) bool) string {
 	if fmt.Sprint(firedIDs(got)) != fmt.Sprint(firedIDs(want)) {
 		return fmt.Sprintf("fired rule ids: got %v want %v", firedIDs(got), firedIDs(want))
 	}
@@ -332,6 +339,9 @@ func diffFired(got, want []Fired, ignoreKeyFor func(ruleID int, t Triple) bool) 
 					w[j].Key = "*"
 				}
 			}
+		}
+		if asSet != nil && asSet(got[i].ID) {
+			g, w = dedupTriples(g), dedupTriples(w)
 		}
 		sortTriples(g)
 		sortTriples(w)
